@@ -245,11 +245,20 @@ func xgeo13(seed uint64) string {
 	if m2 > math.Pi*earthR {
 		m2 = 1000
 	}
+	if r.coin(0.15) { // two large circles
+		m2 = math.Pi * earthR * float64(r.rangeI(500, 999)) / 1000
+	}
 	c2 := geojson.NewCircle(geometry.Point{X: lon2, Y: lat2}, m2, 64)
 	dd := refDist(lat, lon, lat2, lon2)
 	ctol := math.Max(1e-3, 1e-6*(dd+meters+m2))
 	if c.Contains(c2) && dd+m2 > meters+ctol {
 		return fmt.Sprintf("FAIL circle contains circle with d+rB=%v > rA=%v", dd+m2, meters)
+	}
+	if meters+m2 >= math.Pi*earthR*1.001 && meters <= math.Pi*earthR && m2 <= math.Pi*earthR {
+		// every centre distance is at most half the circumference, hence at most the sum of the radii
+		if !c.Intersects(c2) || !c2.Intersects(c) {
+			return fmt.Sprintf("FAIL circles whose radii sum to %v (more than half the circumference) do not intersect, d=%v", meters+m2, dd)
+		}
 	}
 	if dd+meters+m2 < math.Pi*earthR {
 		i1, i2 := c.Intersects(c2), c2.Intersects(c)
